@@ -25,6 +25,10 @@ def parse_functions(text):
     """name -> (index, text) of every function definition f<k> in a C file."""
     out = {}
     dups = []
+    # export wrappers (which may be NAMED f<k> by the module) follow the exports array; function definitions precede it
+    cut = text.find('\nwasmFuncExport ')
+    if cut >= 0:
+        text = text[:cut]
     lines = text.split('\n')
     i = 0
     while i < len(lines):
